@@ -310,7 +310,8 @@ func checkExprRanges(src []byte, e hclsyntax.Expression, bad func(string, string
 				bad("unary-symbol", fmt.Sprintf("unary SymbolRange slices %q", sym))
 			}
 		case *hclsyntax.FunctionCallExpr:
-			if !sliceIs(src, t.NameRange, t.Name) {
+			// a namespaced name is several tokens (ns :: fn) that may be separated by blanks
+			if sl := string(t.NameRange.SliceBytes(src)); !sliceIs(src, t.NameRange, t.Name) && (strings.TrimSpace(sl) != sl || sigText(sl) != t.Name) {
 				bad("call-name", fmt.Sprintf("call NameRange slices %q for %q", t.NameRange.SliceBytes(src), t.Name))
 			}
 			if !sliceIs(src, t.OpenParenRange, "(") || !sliceIs(src, t.CloseParenRange, ")") {
